@@ -401,6 +401,10 @@ class Logix( Message_Router ):
                     attribute.parser.tag_type, (attribute.parser.tag_type,) ), \
                     "Tag type %d in request doesn't fit within Attribute type %d" % ( 
                         data[context].type, attribute.parser.tag_type )
+                if data[context].type != attribute.parser.tag_type:
+                    # Every value of an allowed (but different) type must be representable in the Attribute's type
+                    for v in data[context].get( 'data' ) or []:
+                        attribute.parser.produce( v )
             else:
                 raise AssertionError( "Unhandled Service Reply" )
 
